@@ -205,6 +205,14 @@ def main(tier):
     byst = {False: [r for r in rows if not r["structured"]], True: [r for r in rows if r["structured"]]}
     n = 0
     for structured, rs in byst.items():
+        # half of the rows go to files whose directives all share one letter case (a per-file effect - e.g. a case-sensitive
+        # pre-filter - would be masked by one lower-case directive elsewhere in the file); the other half stays mixed
+        half = len(rs) // 2
+        homog = sorted(rs[:half], key=lambda r: r["case"])
+        for r in homog:
+            if r["case"] == "upper":
+                r["directive"] = r["directive"] if r["directive"] in ("ignore", "no-kvp", "none") else "ignore"
+        rs = homog + rs[half:]
         for i in range(0, len(rs), 10):
             jobs.append((built, "%d-%d" % (ck.seed, n), rs[i:i + 10], structured, "\r\n" if n % 4 == 3 else "\n"))
             n += 1
